@@ -392,6 +392,8 @@ def iterate(I, v):
 
 # ------------------------------------------------------------------ arrays: indexing
 def arr_getitem(I, arr, idx):
+    if idx is Ellipsis:
+        return arr          # a[...] is a view of the whole array
     if isinstance(idx, SArray) and idx.kind == "bool":
         s = arr.snap()
         m = idx.snap()
